@@ -625,7 +625,46 @@ func families(tier string) []fw.Family {
 		g := oracle.Digits(i, len(ps), len(ds), len(offsets))
 		return ps[g[0]], ds[g[1]], offsets[g[2]]
 	}
+	// second family: a dash or gap boundary at exactly the arc length canvas itself reports for the
+	// first segment (the value a caller gets from Path.Length() of that segment alone): every
+	// ordered pair of menu segments followed by a line, with the patterns [L 0.7], [L 3] and
+	// offset 2 into [2 L 5 1] (the first segment then lies wholly in a gap)
+	type vcase struct {
+		a, b, pat int
+	}
+	var vcases []vcase
+	for a := range menu {
+		for b := range menu {
+			for pat := 0; pat < 3; pat++ {
+				vcases = append(vcases, vcase{a, b, pat})
+			}
+		}
+	}
+	vdec := func(i int64) (pathCase, []float64, float64) {
+		c := vcases[i]
+		o := oracle.Pt{}
+		L := cv.Path(open(o, menu[c.a]).data).Length()
+		pc := open(o, menu[c.a], menu[c.b], ln(2, -1))
+		switch c.pat {
+		case 1:
+			return pc, []float64{L, 3}, 0
+		case 2:
+			return pc, []float64{2, L, 5, 1}, 2
+		}
+		return pc, []float64{L, 0.7}, 0
+	}
 	return []fw.Family{{
+		Name: fmt.Sprintf("two menu segments and a line (%d pairs) x 3 patterns with a boundary at exactly the Length() of the first segment", len(menu)*len(menu)),
+		N:    int64(len(vcases)),
+		Check: func(i int64, r *fw.R) {
+			pc, d, off := vdec(i)
+			check(pc, d, off, r)
+		},
+		Desc: func(i int64) string {
+			pc, d, off := vdec(i)
+			return fmt.Sprintf("path=%s Dash(%g, %v) [%s]", oracle.Fmt(pc.data), off, d, pc.name)
+		},
+	}, {
 		Name: fmt.Sprintf("paths(%d) x dash arrays(%d) x offsets(%d)", len(ps), len(ds), len(offsets)),
 		N:    n,
 		Check: func(i int64, r *fw.R) {
